@@ -12,6 +12,9 @@ J = 'src/jsontypes.rs'
 MUTANTS = [
     ('decoder::decode_common', r'rsm\.x_facebook_sources\.is_some\(\)', 'rsm.x_facebook_sources.is_none()'),
     ('decoder::decode_index', r'\n\s*verif_sort_by_key\(&mut sections, SourceMapSection::get_offset\);\n', '\n'),
+    ('decoder::decode_index', r'\(raw_section\.offset\.line, raw_section\.offset\.column\)', '(raw_section.offset.column, raw_section.offset.line)'),
+    ('decoder::decode_index', r'raw_section\.url,', 'None,'),
+    ('decoder::decode_index', r'rsm\.x_facebook_offsets,', 'None,'),
 ]
 
 
@@ -49,6 +52,7 @@ def build(u):
     u.raw('stub SourceMapHermes', '//@@ prelude hermes_stub\n#[verifier::external_body]\npub struct SourceMapHermes { _x: u8 }\n//@@ endprelude\n')
     u.spec('order.rs')
     u.spec('index.rs')
+    u.spec('index_decode.rs')
     # the three decoders behind the dispatch: bodies live in other units / are out of scope here
     u.raw('stub decoders', '''//@@ prelude decoders_stub
 //# assumes: nothing about decode_regular / decode_hermes beyond their signatures (they are called, not inspected, by the dispatch)
@@ -81,4 +85,5 @@ pub fn verif_sort_by_key<T, K: Ord, F: FnMut(&T) -> K>(v: &mut Vec<T>, f: F)
         # R-rec-stub: the recursive call back into decode_common goes to a stub carrying decode_common's contract;
         # termination of the mutual recursion is NOT proved (nesting depth is bounded by serde_json's recursion limit)
         u.count('R-rec-stub', f.rewrite(r'\bdecode_common\(', 'decode_common__rec(', expect=1))
+        u.count('R-closure', f.annotate_closure('val', 'val: Value', '(o: String) ensures val matches Value::String(s) ==> o == s', expect=1))
     emit_free_fn(u, D, 'decode_index', 'decoder::decode_index', prep=prep_idx)
